@@ -568,7 +568,7 @@ def run(ctx):
     install_draw_recorders()
     mseg.install(ctx)
     thorough = ctx.tier == "thorough"
-    for t in range(60 if not thorough else 2500):
+    for t in range(180 if not thorough else 4000):
         with ctx.guard(120):
             run_scripted(ctx, rng, t)
     for t in range(1 if not thorough else 12):
